@@ -33,6 +33,7 @@ HARNESS = {
 HARNESS["shim_chunks_map_collect"] = dict(kind="shim", proved=False, fns=["<[T]>::chunks + Iterator::map + collect::<Vec<_>> (core/alloc)"], bound="slice <= 7 bytes, chunk size usize full domain (> 0)")
 HARNESS["shim_iter_map_collect"] = dict(kind="shim", proved=False, fns=["<[T]>::iter + Iterator::map + collect::<Vec<_>> (core/alloc)"], bound="slice <= 5 bytes")
 HARNESS["shim_slice_try_into_array"] = dict(kind="fd", proved=True, fns=["<&[u8] as TryInto<&[u8; 32]>>::try_into (core::array)"], bound="40-byte buffer, symbolic length (loop-free: a length test and a pointer cast)")
+HARNESS["shim_u32_from_be_bytes"] = dict(kind="fd", proved=True, fns=["u32::from_be_bytes", "<&[u8] as TryInto<[u8; 4]>>::try_into (core)"], bound="all 2^32 arrays; 8-byte buffer with symbolic length for the conversion (loop-free)")
 def _leaf(name, fns, bound, kind="leaf", proved=False):
     HARNESS[name] = dict(kind=kind, proved=proved, fns=fns if isinstance(fns, list) else [fns], bound=bound)
 
@@ -255,13 +256,13 @@ PROPS = {
         explanation="see level_text",
     ),
     "C15": dict(
-        level="model_checking",
-        level_text="Unbounded (Verus, unit accessors, on the real method bodies): the six required ClientHello trait methods of both impls (TLS and DTLS), new() of TlsClientHelloContents / TlsServerHelloContents and get_version() return the structure's own fields / store their arguments unchanged for every value, in particular every list length. Kani contract harnesses on the ClientHello trait (TLS and DTLS impls), constructors and getters: every accessor returns the structure's own field (pointer identity for slices), rand_time() == be32(first four random bytes) and rand_bytes() == the rest for every random of length 4..36 (incl. 32), new()/get_version() store and return their arguments. Full domain in every integer; bounded in list length (<= 2 ciphers). cipher_suites()/get_ciphers()/get_cipher() are compositions of the accessors with from_id, which C12 proves over all ids.",
-        level_note="The default methods rand_time / rand_bytes / cipher_suites and get_ciphers / get_cipher use iterator adapters and Option combinators outside Verus's subset: decided by Kani only (full domain in the random bytes, bounded in cipher-list length). R8' (trait impl -> inherent impl, bodies verbatim) is applied to the two trait impls. Bounded in cipher-list length for the Kani part; registry mapping of cipher_suites() rests on fd_from_id (C12).",
-        technique="contract-based deductive verification: Verus on the extracted accessor bodies (unbounded) + Kani contract harnesses on the compiled code",
+        level="proof",
+        level_text="Unbounded (Verus, unit accessors, on the real bodies): the ClientHello trait is kept as a trait - each required accessor gets a ghost twin (`random_spec()` ...) and `ensures r == self.random_spec()`; both impls (TLS, DTLS) define the twin as the structure's own field and their method bodies are proved against the trait's ensures, so every accessor returns the structure's own version / random / session id / cipher list / compression list / extension block. The DEFAULT methods are verified inside the trait, for every implementor: rand_time() == the big-endian u32 of the first four random bytes (0 for a random shorter than four bytes), rand_bytes() == everything after the first four bytes (the remaining 28 of a 32-byte random; empty when shorter), cipher_suites() == one entry per advertised id, in order, each the registry lookup of that id - for every random length and every list length. get_ciphers() (same chain on the field), get_cipher(), TlsCipherSuiteID::get_ciphersuite (== from_id of the raw id), new() of TlsClientHelloContents / TlsServerHelloContents and get_version() likewise. The registry lookup itself (phf map) is an uninterpreted function of the id here; that it is the IANA table is C12 (fd_from_id, fd_route_get_ciphersuite, fd_c12_rows over all 65536 ids, run by this check too). Kani contract harnesses repeat the accessor, rand_time (all 2^32 leading words), rand_bytes (random lengths 4..36), constructor and cipher-list clauses on the compiled code (bounded in list length).",
+        level_note="Proof relative to: vstd's specifications of <[T]>::get(range), Option::and_then / map / unwrap_or, Result::ok, Vec::as_slice; the std shims iter_map_collect (R17, Kani shim_iter_map_collect), slice_try_into_array_copy (R18) and u32_from_be_bytes (R19) (Kani shim_u32_from_be_bytes: complete); the receiver of `.iter()` made an explicit `.as_slice()` (auto-deref written out); TlsCipherSuite::from_id is external_body with an uninterpreted result (C12). A change that uses a Vec method vstd has no specification for (e.g. dedup_by_key) is outside the subset: exit 2 for the unit, decided by the Kani harnesses.",
+        technique="contract-based deductive verification: Verus on the extracted trait (default methods verified against trait-level ensures, impls against the trait contract), unbounded; Kani contract harnesses on the compiled code",
         verus=["accessors"],
-        kani=[dict(quick=["leaf_ch_accessors_tls", "leaf_ch_accessors_dtls", "fd_server_hello_ctor", "mod_ch_cipher_suites", "fd_route_get_ciphersuite", "fd_from_id"], timeout=900)],
-        paired={'accessors': ['leaf_ch_accessors_tls', 'leaf_ch_accessors_dtls', 'fd_server_hello_ctor']},
+        kani=[dict(quick=["leaf_ch_accessors_tls", "leaf_ch_accessors_dtls", "fd_server_hello_ctor", "mod_ch_cipher_suites", "fd_route_get_ciphersuite", "fd_from_id", "shim_iter_map_collect", "shim_u32_from_be_bytes"], timeout=900)],
+        paired={'accessors': ['leaf_ch_accessors_tls', 'leaf_ch_accessors_dtls', 'fd_server_hello_ctor', 'mod_ch_cipher_suites']},
         explanation="see level_text",
     ),
     "C17": dict(
